@@ -63,7 +63,7 @@ def run_slice(args):
     t0 = time.time()
     res = dict(name=sl['name'], mode=sl['mode'], paths=0, kinds={}, obligations=0, queries=0, path_queries=0, solver_time=0.0,
                failures={}, unsupported={}, panics={}, bodies=set(), models=set(), truncated=False, steps=0, errs={},
-               samples=[], impure=[], wall=0.0, error=None, bounds=sl.get('bounds', {}))
+               samples=[], impure=[], impure_cases=[], wall=0.0, error=None, bounds=sl.get('bounds', {}))
     res['validate'] = []
     import random
     rnd = random.Random(sl.get('seed', 1))
@@ -71,6 +71,7 @@ def run_slice(args):
         prog = get_prog(mir_path, repo)
         prog.solver_timeout_ms = sl.get('solver_timeout_ms', 10000)
         st = make_setup(prog, sl)
+        prog.restrict = [(re.compile(rx), k, n) for rx, k, n in sl.get('restrict', ())]
         for pr in sexec.explore(prog, None, st, max_paths=max_paths, time_budget=time_budget):
             if pr.kind == 'truncated':
                 res['truncated'] = True
@@ -87,6 +88,11 @@ def run_slice(args):
             if pr.kind == 'unsupported':
                 k = str(pr.error)[:300]
                 res['unsupported'][k] = res['unsupported'].get(k, 0) + 1
+                if pr.notes.get('impure') and len(res['impure_cases']) < 6:
+                    # the input that drives the macro into the impure primitive: handed to the determinism replay (C20)
+                    c_ = concretize_case(prog, pr, None)
+                    if c_ and 'error' not in c_:
+                        res['impure_cases'].append(c_)
                 continue
             if pr.kind == 'infeasible':
                 continue
